@@ -360,6 +360,13 @@ C04_PowerCap == [][
     (r.powCap > 0 /\ DOMAIN r.cvs # {}) => PowerCapPost(r.powCap, in, out)
   ]_vars
 
+
+(* ---- C04 on the real exported functions, over a complete small input domain (corpus "vectors") ---- *)
+C04_VecPowerCap == (E.a = "VecPowerCap") => PowerCapPost(E.args.p, E.args.in, E.res.out)
+C04_VecSetCap ==
+  (E.a = "VecSetCap") =>
+    E.res.out = (IF E.args.topN = 0 /\ E.args.cap > 0 /\ E.args.cap < Len(E.args.in) THEN SubSeq(E.args.in, 1, E.args.cap) ELSE E.args.in)
+
 (* ======================================================================= *)
 (* C12  validator-set update ids and heights                                *)
 (* ======================================================================= *)
@@ -1157,6 +1164,39 @@ C07_OnlySigner == [][
 
 C07_RejectedUnchanged == [][
   (PStep /\ Txn(Ev, "DoubleVoting") /\ ~OkTx(Ev)) => (p'.vals = p.vals /\ p'.dig.all = p.dig.all /\ p'.dig.staking = p.dig.staking)
+  ]_vars
+
+
+\* ---- light-client-attack misbehaviour: the validators that signed both conflicting headers ----
+MisbFlagsOk(a) == a.clientOk /\ a.chainOk /\ a.sameH /\ ~a.old /\ a.sigOk
+MisbTargets(s, a) == IF a.c \in Cons(s) THEN { Resolve(s, a.c, a.both[i]) : i \in DOMAIN a.both } ELSE {}
+
+C07_MisbVerdict == [][
+  (PStep /\ Txn(Ev, "Misbehaviour")) =>
+    /\ OkTx(Ev) => ( /\ MisbFlagsOk(Ev.args) /\ Ev.args.c \in Cons(p) /\ p.cons[Ev.args.c].client # ""
+                     /\ \E v \in MisbTargets(p, Ev.args) : Punishable(p, v) )
+    /\ (~MisbFlagsOk(Ev.args)) => ~OkTx(Ev)
+  ]_vars
+
+C07_MisbOnlySigners == [][
+  (PStep /\ Txn(Ev, "Misbehaviour") /\ OkTx(Ev)) =>
+    LET a == Ev.args  tg == MisbTargets(p, a)  ds == p.cons[a.c].infr.v.ds
+        anyUbd == \E v \in tg : v \in DOMAIN p.vals /\ p.vals[v].ubd > 0 IN
+    /\ \A v \in DOMAIN p.vals :
+         IF v \in tg /\ Punishable(p, v)
+           THEN LET x == p.vals[v]  y == p'.vals[v]  burned == (x.tok - y.tok) + (x.ubd - y.ubd) IN
+                /\ y.jailed /\ y.tomb = (ds.tomb \/ x.tomb)
+                /\ burned >= 0
+                /\ (ds.fracBp = 0) => burned = 0
+                /\ (ds.fracBp > 0 /\ x.lp > 0) => (burned >= x.lp * 100 * ds.fracBp - 2)
+                /\ burned <= (x.lp * 100 + (x.ubd \div 10000) + 101) * ds.fracBp + 2
+           ELSE /\ JailView(p'.vals[v]) = JailView(p.vals[v])
+                /\ (~anyUbd) => p'.vals[v].tok = p.vals[v].tok
+    /\ p'.cons = p.cons
+  ]_vars
+
+C07_MisbRejectedUnchanged == [][
+  (PStep /\ Txn(Ev, "Misbehaviour") /\ ~OkTx(Ev)) => (p'.vals = p.vals /\ p'.dig.all = p.dig.all /\ p'.dig.staking = p.dig.staking)
   ]_vars
 
 \* tombstoning is permanent and jailing by equivocation happens only through evidence
